@@ -86,9 +86,9 @@ class TankRun:
         if k == "ponded":
             return cv(p, t.pull_ponded())
         if k == "avail":
-            return cv(p, t.get_avail(None if op[1] is None else {"volume": Ex(op[1])}))
+            return own(p, t.get_avail(None if op[1] is None else {"volume": Ex(op[1])}))
         if k == "excess":
-            return cv(p, t.get_excess(None if op[1] is None else {"volume": Ex(op[1])}))
+            return own(p, t.get_excess(None if op[1] is None else {"volume": Ex(op[1])}))
         if k == "end":
             self.parent.set_T(op[1])
             t.end_timestep()
@@ -97,6 +97,15 @@ class TankRun:
             return cv(p, t.ds())
         if k == "outflow":
             return cv(p, t.pull_outflow())
+
+
+def own(p, d):
+    """the answer to a query is the caller's to keep (River.pull_check_river, for one, adds to what get_avail returned):
+    read it, then write on it - a store that handed out its own record shows up as 'query changed the state'"""
+    out = cv(p, d)
+    for key in list(d):
+        d[key] = d[key] + Ex(1)
+    return out
 
 
 class QTankRun:
@@ -132,9 +141,9 @@ class QTankRun:
         if k == "pullexact":
             return cv(p, t.pull_storage_exact(p.d(op[1])))
         if k == "check":
-            return cv(p, t.push_check(None if op[1] is None else p.d(op[1])))
+            return own(p, t.push_check(None if op[1] is None else p.d(op[1])))
         if k == "avail":
-            return cv(p, t.get_avail())
+            return own(p, t.get_avail())
         if k == "end":
             self.parent.set_T(op[1])
             t.end_timestep()
@@ -340,6 +349,8 @@ def predicates(fam, cls, op, b, r, a, hist):
                 bad("C05", f"{cls}: entered {strs(vsubt(a['sto'], b['sto']))} + returned {strs(r)} != offer {strs(offer)}")
             if a["fin"] > a["acap"]:
                 bad("C05", f"{cls}: internal arc admitted {a['fin']} > capacity")
+        if k in ("check", "avail", "ds") and a != b:
+            bad("C05", f"{cls}: query {k} changed the state")
         if k in ("pull", "pullexact"):
             if not vle(r, b["act"]):
                 bad("C09", f"{cls}: {k} withdrew {strs(r)} but only {strs(b['act'])} had arrived")
